@@ -20,8 +20,8 @@ PROP = 'C11'
 POLY_ONE = POLY_X = None
 GROUPINGS = {'UNIT': 'UNIT', 'GROUPED': 'GROUPED', 'OPT': 'GROUPED_OPTIMIZED'}
 SLICEVS = {'ROMBERG': 'ROMBERG_DEFAULT', 'TRAPEZOID': 'TRAPEZOID'}
-INTERVALS_Q = [(0.0, 1.0), (-1.0, 3.0), (0.1, 0.7)]
-INTERVALS_T = INTERVALS_Q + [(1.0 / 3.0, 2.0), (2.0, 2.5), (-7.3, -1.1), (1e-3, 5e3), (-1e-2, 1e-2)]
+INTERVALS_Q = [(0.0, 1.0), (-1.0, 3.0), (0.1, 0.7), (0.0, 1e-8)]      # (the last one: step widths far below any absolute tolerance)
+INTERVALS_T = INTERVALS_Q + [(3e5, 3e5 + 2.0 ** -10), (1.0 / 3.0, 2.0), (2.0, 2.5), (-7.3, -1.1), (1e-3, 5e3), (-1e-2, 1e-2)]
 
 
 def P(t):
